@@ -117,6 +117,9 @@ def run_config(prog, shape):
 
 
 def confirm(case, nat):
+    if case.get("op") == "server_devices":
+        # the real server storage: the call went through and the keys it verifies against differ from the log's replay
+        return nat.get("outcome") == "ok" and "Ok" in (nat.get("result") or {}) and nat.get("agree") is False
     return nat.get("outcome") == "ok" and nat.get("admitted") == case["admitted"]
 
 
@@ -133,7 +136,21 @@ def run(tier, regenerate=True):
                                            "trusted_device_keys": "0..%d, each verifying or not (symbolic)" % (2 if tier == "quick" else 3),
                                            "access_config": ["none", "deny-me", "allow-other", "allow-me"],
                                            "token": "3 symbolic characters (with or without '.')"}
-    results = par.map_entries(lambda s: run_config(prog, s) if len(s) == 2 else run_auth(prog, s), shapes + auth_shapes)
+    from . import c11_devices as D
+    prog_c = H.load_program(D.CRATES, regenerate=regenerate)
+    chk.extra["mir_regeneration_s"].update(prog_c.timings)
+    dev_shapes = D.shapes(tier)
+    chk.bounds["trusted_device_cache"] = {"calls": ["Merge::merge_device", "ForceMerge::force_merge_device"], "device_log_events": "1..2",
+                                          "patch_events": "1..%d" % (2 if tier == "quick" else 3), "event_kinds": "every trust/revoke sequence",
+                                          "device_keys": "symbolic, pool of two"}
+
+    def dispatch(s):
+        if len(s) == 2:
+            return run_config(prog, s)
+        if len(s) == 3:
+            return D.run_devices(prog_c, s)
+        return run_auth(prog, s)
+    results = par.map_entries(dispatch, shapes + auth_shapes + dev_shapes)
     rep = None
     blocks = {}
     for out in results:
@@ -167,7 +184,10 @@ def run(tier, regenerate=True):
             nat = rep.run(case)
             if confirm(case, nat):
                 chk.replays_ok += 1
-                chk.report(key, desc + "; allow=%s deny=%s id=%s admitted=%s" % (case["allow"], case["deny"], case["who"], case["admitted"]), case)
+                if case.get("op") == "server_devices":
+                    chk.report(key, desc + "; native: listed=%s log replay=%s" % (nat.get("listed"), nat.get("replay")), case)
+                else:
+                    chk.report(key, desc + "; allow=%s deny=%s id=%s admitted=%s" % (case["allow"], case["deny"], case["who"], case["admitted"]), case)
             else:
                 chk.replays_bad += 1
                 chk.inconclusive.append("not reproduced natively: %s :: %s" % (desc, json.dumps(nat)[:300]))
@@ -175,8 +195,10 @@ def run(tier, regenerate=True):
         rep.close()
     chk.functions = {kk: {"mir_blocks_executed": v} for kk, v in sorted(blocks.items())}
     chk.assumptions = [
-        "decision functions only: that every route calls authenticate_endpoint with the right bytes, device revocation "
-        "refresh and the absence of side effects of refused requests need a walk of the live axum server and are outside",
+        "decision functions and the trusted-device cache only: that every route calls authenticate_endpoint with the right "
+        "bytes and the absence of side effects of refused requests need a walk of the live axum server and are outside",
+        "part C: the device event log is the harness's record list (patch_checked accepts or conflicts, replace_all_events "
+        "succeeds or fails, nondeterministically); TrackedChanges::new_device_records is stubbed; T of SyncImpl<T> is abstract",
         "Ed25519 verification is an uninterpreted predicate per trusted key; bs58 and signature decoding are nondeterministic; "
         "locks are uncontended; the account table and device keys are supplied by the harness",
     ]
